@@ -264,7 +264,7 @@ fn years_since(acc: &mut Acc, za: i64, all: &[i64]) {
 
 fn datetime_keeps_time(acc: &mut Acc, z: i64) {
     let (y, m, day) = civil_from_days(z);
-    for &(s, f) in &[(0u32, 0u32), (86399, 999_999_999), (86399, 1_999_999_999), (43200, 1)] {
+    for &(s, f) in &[(0u32, 0u32), (86399, 999_999_999), (86399, 1_999_999_999), (43200, 1), (3630, 1_500_000_000)] {
         let t = mk_ndt(z, s, f);
         for n in [1u32, 11, 12, 13, 4800] {
             let ym = y as i128 * 12 + m as i128 - 1 + n as i128;
